@@ -39,6 +39,7 @@ func init() {
 	reg0("C18Designate", HarnessC18Designate)
 	reg0("C18Single", HarnessC18Single)
 	reg0("C18Prefix", HarnessC18Prefix)
+	reg0("C18Crash", HarnessC18Crash)
 	reg0("C19Options", HarnessC19Options)
 	reg0("C19ClientIP", HarnessC19ClientIP)
 	reg1("C14AB", SetupC14AB, HarnessC14AB)
